@@ -229,3 +229,106 @@ func VH_C18_structsize() {
 	}
 	vAssert(int(sz.DataSize) == 8*d && int(sz.PointerCount) == p, "C18.structsize.trailing-zero-words-truncated")
 }
+
+// composite list whose elements carry data AND pointers in any combination: the canonical element
+// size is the maximum over the elements of each section separately, and every element's fields and
+// pointers are still there when the canonical bytes are read back
+func VH_C18_composite_mixed() {
+	_, seg := vNewMsg()
+	s, err := NewRootStruct(seg, ObjectSize{PointerCount: 1})
+	vAssume(err == nil)
+	const n = 2
+	l, err := NewCompositeList(seg, ObjectSize{DataSize: 8, PointerCount: 1}, n)
+	vAssume(err == nil)
+	var w [n]uint64
+	var has [n]bool
+	var pay [n]byte
+	for i := 0; i < n; i++ {
+		w[i] = vNondetU64()
+		l.Struct(i).SetUint64(0, w[i])
+		has[i] = vConc(int(vNondetU8()), 2) == 1
+		pay[i] = vNondetU8()
+		if has[i] {
+			vAssume(l.Struct(i).SetData(0, []byte{pay[i]}) == nil)
+		}
+	}
+	vAssume(s.SetPtr(0, l.ToPtr()) == nil)
+	out, err := Canonicalize(s)
+	vReach("returned")
+	vAssert(err == nil, "C18.mixed.no-error")
+	if err != nil {
+		return
+	}
+	d, p := 0, 0
+	for i := 0; i < n; i++ {
+		if w[i] != 0 {
+			d = 1
+		}
+		if has[i] {
+			p = 1
+		}
+	}
+	vAssert(len(out) >= 24, "C18.mixed.length")
+	if len(out) < 24 {
+		return
+	}
+	vAssert(vWord(out, 1) == refListPtrWord(0, 7, uint64(n*(d+p))), "C18.mixed.list-pointer-word-count")
+	vAssert(vWord(out, 2) == refStructPtrWord(int64(n), uint64(d), uint64(p)), "C18.mixed.tag-is-maximum-of-each-section")
+	// read back
+	m := &Message{Arena: SingleSegment(out)}
+	root, err := m.Root()
+	vAssert(err == nil, "C18.mixed.readable")
+	if err != nil {
+		return
+	}
+	lp, err := root.Struct().Ptr(0)
+	vAssert(err == nil && lp.List().Len() == n, "C18.mixed.list-readable")
+	if err != nil || lp.List().Len() != n {
+		return
+	}
+	for i := 0; i < n; i++ {
+		e := lp.List().Struct(i)
+		vAssert(e.Uint64(0) == w[i], "C18.mixed.element-data-preserved")
+		ep, err := e.Ptr(0)
+		vAssert(err == nil, "C18.mixed.element-pointer-readable")
+		if err != nil {
+			continue
+		}
+		if has[i] {
+			vAssert(len(ep.Data()) == 1 && ep.Data()[0] == pay[i], "C18.mixed.element-pointer-preserved")
+		} else {
+			vAssert(!ep.IsValid(), "C18.mixed.absent-pointer-stays-null")
+		}
+	}
+}
+
+// a value whose canonical form is larger than one default segment (1 KiB): still ONE segment,
+// complete, readable
+func VH_C18_large_single_segment() {
+	_, seg := vNewMsg()
+	s, err := NewRootStruct(seg, ObjectSize{DataSize: 8, PointerCount: 1})
+	vAssume(err == nil)
+	x := vNondetU64()
+	s.SetUint64(0, x)
+	blob := make([]byte, 1500)
+	last := vNondetU8()
+	blob[1499] = last
+	vAssume(s.SetData(0, blob) == nil)
+	out, err := Canonicalize(s)
+	vReach("returned")
+	vAssert(err == nil, "C18.large.no-error")
+	if err != nil {
+		return
+	}
+	d := 0
+	if x != 0 {
+		d = 1
+	}
+	vAssert(len(out) == 8*(1+d+1)+1504, "C18.large.complete-in-one-segment")
+	if len(out) != 8*(1+d+1)+1504 {
+		return
+	}
+	vAssert(vWord(out, 0) == refStructPtrWord(0, uint64(d), 1), "C18.large.root-pointer")
+	vAssert(vWord(out, 1+d) == refListPtrWord(0, 2, 1500), "C18.large.data-pointer-is-near")
+	vAssert(out[8*(2+d)+1499] == last, "C18.large.last-byte")
+}
